@@ -65,7 +65,7 @@ def text(rng: random.Random, n: t.Optional[int] = None) -> str:
         return "".join(rng.choice("éßΩж中文ü") for _ in range(n))
     if kind == "astral":
         return "".join(rng.choice("😀𝄞𐍈") for _ in range(n))
-    return "".join(rng.choice("a.é中😀Z") for _ in range(n))
+    return "".join(rng.choice("a.é中😀Z\x00") for _ in range(n)) + rng.choice(["", "", "\x00"])
 
 
 def u32(rng):
